@@ -29,7 +29,7 @@ type c13Params struct {
 	Faulty      []int
 	ReadDelayMs int
 	D           int // deviation bound of this scenario (0 = tier default)
-	// Stuck: sessions whose client never reads its output (a stalled or vanished client): the session's queue of
+	// Stuck: files literally named '-', sessions whose client never reads its output (a stalled or vanished client): the session's queue of
 	// 100 lines fills and its read blocks in a send; such a session is ended after two (virtual) seconds.  With
 	// Mode "grepb" the command is a grep with 49 lines of before-context and a match on every 50th line.
 	Stuck []int
@@ -65,6 +65,11 @@ func c13Files(p c13Params) (dir string) {
 			var sb strings.Builder
 			for l := 1; l <= p.Lines; l++ {
 				fmt.Fprintf(&sb, "s%df%dl%d\n", s, f, l)
+			}
+			if p.Mode == "catdash" {
+				// files literally named "-" (the name the server uses internally for the stdin pipe)
+				WriteScratch(fmt.Sprintf("%s/s%d/f%d/-", dir, s, f), sb.String())
+				continue
 			}
 			WriteScratch(fmt.Sprintf("%s/s%d/f%d.log", dir, s, f), sb.String())
 		}
@@ -147,7 +152,11 @@ func c13Scenario(p c13Params) *explore.Scenario {
 				} else {
 					vrt.Go("pump", func() { s.Pump(32 * 1024) })
 				}
-				if p.Mode == "grepb" {
+				if p.Mode == "catdash" {
+					for f := 0; f < p.Files; f++ {
+						s.H.Write(WireCommand(fmt.Sprintf("cat %s/s%d/f%d/- regex:noop ", dir, i, f)))
+					}
+				} else if p.Mode == "grepb" {
 					s.H.Write(WireCommand(fmt.Sprintf("grep:before=49 %s/s%d/*.log* regex:default l[0-9]*(50|00)$", dir, i)))
 				} else if p.Mode == "map" {
 					// a dmap session: the map command, then the read command feeding it
@@ -193,7 +202,7 @@ func c13Scenario(p c13Params) *explore.Scenario {
 						got[f[5]]++
 					}
 				}
-				if p.Mode == "cat" && !cancelled[i] && !faultyS[i] {
+				if (p.Mode == "cat" || p.Mode == "catdash") && !cancelled[i] && !faultyS[i] {
 					for f := 0; f < p.Files; f++ {
 						for l := 1; l <= p.Lines; l++ {
 							want := fmt.Sprintf("s%df%dl%d\n", i, f, l)
@@ -262,6 +271,7 @@ func c13Params_(tier string) (ps []c13Params, d int) {
 			{Mode: "cat", Limit: 2, Sessions: 4, Files: 1, Lines: 1, Faulty: []int{1}, ReadDelayMs: 500, D: 1},
 			{Mode: "cat", Limit: 1, Sessions: 3, Files: 1, Lines: 1, Faulty: []int{0}, ReadDelayMs: 500, D: 1},
 			{Mode: "grepb", Limit: 1, Sessions: 2, Files: 1, Lines: 300, Stuck: []int{0}, D: 1},
+			{Mode: "catdash", Limit: 1, Sessions: 2, Files: 2, Lines: 1, ReadDelayMs: 300, D: 1},
 			{Mode: "cat", Limit: 1, Sessions: 2, Files: 1, Lines: 300, Stuck: []int{0}, D: 1},
 		}, 2
 	}
@@ -307,6 +317,7 @@ func init() {
 			"virtual time advances only when no goroutine is runnable",
 			"preemption alternatives are generated at operations on the limiter, done/cancel channels, rawLines/lines channels and the active-command counter; forced switches and select choices always branch",
 		},
+		QuickBudget: 240 * time.Second,
 		Run: func(c *Ctx) {
 			ps, d := c13Params_(c.Tier)
 			for _, p := range ps {
